@@ -243,6 +243,9 @@ func (r *runner) snapshot() snapshot {
 	// census: an entry of unixSockets whose counter is 0 is a socket nobody uses any more but whose
 	// descriptor caddy still keeps — its last close must close that descriptor and drop the entry
 	for u := 0; u < nUnix; u++ {
+		if nTCP+u == adm1 {
+			continue // the admin endpoint's closes are not serialised with our snapshots: checked when settled
+		}
 		if n, present := st.Unix[r.env.poolKey(nTCP+u)]; present && n == 0 {
 			r.fail("unix-socket-table-entry-left-after-last-close", fmt.Sprintf("unixSockets still has an entry for %s with counter 0: the socket was closed by its last user but caddy keeps a descriptor of it (the kernel keeps accepting connections nobody serves)", addrNames[nTCP+u]))
 		}
